@@ -395,8 +395,24 @@ def series_counters(cases, raw):
     return n
 
 
+def design_delivery(ctx):
+    """Design-level model of the io.Reader contract (PlyDeliver): the reading discipline that is independent of
+    the delivery passes, the single-Read discipline has a counterexample unless every Read is whole."""
+    expect = {"FullAny": None, "SingleAny": "DeliveryIndependent", "SingleRefill": "DeliveryIndependent", "SingleWhole": None}
+    out = {}
+    for cfg, want in expect.items():
+        r = core.run_tlc(ctx.scratch("deliver-" + cfg), "PlyDeliver", "PlyDeliver%s.cfg" % cfg, workers=1, timeout=600, heap="1g")
+        got = r.violated if r.rc != 0 else None
+        if got != want:
+            raise core.Infra("PlyDeliver/%s: expected %s, TLC found %s" % (cfg, want or "no error", got or "no error"))
+        out[cfg] = {"states": r.distinct, "result": got or "holds"}
+    ctx.extra["design_delivery"] = out
+
+
 def run_series(ctx, vh, prop, name="series"):
     """Series stage of a check: returns (cases, findings, raw)."""
+    if prop == "C08":
+        design_delivery(ctx)
     cases, notes = gen_series(ctx, "write" if prop == "C04" else "ref")
     for i, c in enumerate(cases):
         c["id"] = i
